@@ -11,6 +11,7 @@ var (
 	VerifHookLinkat    func(oldpath, newpath string) error
 	VerifHookFdatasync func(fd int) error
 	VerifHookClose     func(fd int) error
+	VerifHookUnlink    func(path string) error
 )
 
 func Open(path string, mode int, perm uint32) (fd int, err error) {
@@ -53,4 +54,11 @@ func Close(fd int) (err error) {
 		return h(fd)
 	}
 	return Close__real(fd)
+}
+
+func Unlink(path string) error {
+	if h := VerifHookUnlink; h != nil {
+		return h(path)
+	}
+	return Unlink__real(path)
 }
